@@ -25,6 +25,7 @@ tvars == <<l, st, bad, devs>>
 SetOf(seq) == {seq[i] : i \in DOMAIN seq}
 
 ObsSt(e) == [ conn  |-> SetOf(e.st.conn),
+              addr  |-> {p \in Peers : e.st.resa[p]},
               known |-> [p \in Peers |-> SetOf(e.st.known[p])],
               subs  |-> SetOf(e.st.subs),
               binds |-> SetOf(e.st.binds),
@@ -51,13 +52,13 @@ ObsDefects(e) ==
           THEN {} ELSE {"ids"})
     \cup (IF \A p \in Peers : /\ e.st.res[p] = (p \in SetOf(e.st.conn))
                               /\ (e.st.resa[p] => e.st.res[p])
-                              /\ (e.st.res[p] /\ SetOf(e.st.known[p]) # {"0"} => e.st.resa[p])
+                              /\ (e.st.res[p] => "0" \in SetOf(e.st.known[p]))
           THEN {} ELSE {"resolve"})
 
 Comp(x, c) == CASE c = "out"   -> x.out
                 [] c = "ev"    -> x.ev
                 [] c = "ret"   -> x.ret
-                [] c = "conn"  -> x.st.conn
+                [] c = "conn"  -> <<x.st.conn, x.st.addr>>
                 [] c = "known" -> x.st.known
                 [] c = "subs"  -> x.st.subs
                 [] c = "binds" -> x.st.binds
